@@ -228,6 +228,25 @@ def op8_shape(ss, after=False):
     return False
 
 
+def foreach_clause_action(ss, inside=False):
+    """shape of the known finding foreach-clause-action-after-each: inside a foreach, a case clause whose body starts with an action
+    and goes on to consume input"""
+    for s in ss:
+        ins = inside or s['t'] == 'foreach'
+        if s['t'] == 'case':
+            for cl in s['cl']:
+                if ins and cl['b'] and _actionish(cl['b'][0]) and _consuming(cl['b']):
+                    return True
+                if foreach_clause_action(cl['b'], ins):
+                    return True
+        for key in ('b', 'h', 'els'):
+            if isinstance(s.get(key), list) and foreach_clause_action(s[key], ins):
+                return True
+        if s['t'] == 'if' and any(foreach_clause_action(br['b'], ins) for br in s['br']):
+            return True
+    return False
+
+
 def _has_finish(ss):
     return any(s['t'] == 'finish' or (s['t'] == 'if' and (any(_has_finish(br['b']) for br in s['br']) or _has_finish(s.get('els') or []))) for s in ss)
 
@@ -305,16 +324,144 @@ def programs(maxsize, stride=1, offset=0, minsize=1):
                 args.append('-fyield-support')
             if idx % 3 == 0 and not foreach_wait(b):
                 args.append('-feof-support')
-            ast['known_class'] = 'greedy-action-only-early' if greedy_early(b) else ('finish-after-skipped-construct' if lazy_finish_shape(b) else None)
+            ast['known_class'] = ('greedy-action-only-early' if greedy_early(b) else 'finish-after-skipped-construct' if lazy_finish_shape(b)
+                                  else 'foreach-clause-action-after-each' if foreach_clause_action(b) else None)
             ast['op8'] = op8_shape(b)
             yield idx, 'enum%d:%d' % (maxsize, idx), ast, genprog.spell_program(ast), args
+
+
+# ---------------------------------------------------------------------------
+# second dialect: the constructs the first one leaves out
+#   atom     ::= "a" | "b" | end | s0 += "a" | s0 += /a+/          (s0 is a str[2]: one byte fits)
+#   action   ::= h0() | delete s0 | s0 += [$last] | n0 = [n0 + 1] | finish F0 | break | break L0   (break L0 inside a nested loop)
+#   compound ::= loop L<depth> { B } | optional { B } | try { B } catch (outofspace) { B' } | try { B } catch (nomatch) { B' }
+#              | case { "a", "b" -> { B' } else -> { B' } } | case { end -> { B' } "a" -> { B' } } | if n0 >= 1 { B } elif n0 >= 0 { B }
+#   every program is compiled with EOF support (the `end` pattern needs it)
+_END = {'t': 'match', 'm': {'k': 'end'}}
+ATOMS2 = [_lit(A), _lit(B_), _END,
+          {'t': 'append', 'var': 's0', 'm': {'k': 'str', 'bytes': [A]}},
+          {'t': 'append', 'var': 's0', 'm': {'k': 're', 'r': _APLUS, 'bin': False}}]
+ACTIONS2 = [{'t': 'hook', 'n': 'h0'}, {'t': 'delete', 'var': 's0'}, {'t': 'appendc', 'var': 's0', 'e': {'k': 'last'}}, _INC, {'t': 'finish', 'code': 'F0'}]
+_COND0 = {'k': 'bin', 'op': '>=', 'l': {'k': 'var', 'name': 'n0'}, 'r': {'k': 'num', 'v': 0}}
+
+
+@functools.lru_cache(maxsize=None)
+def _lists2(n, depth, allow_empty):
+    if n == 0:
+        return ((),) if allow_empty else ()
+    out = []
+    for k in range(1, n + 1):
+        for s in _stmts2(k, depth):
+            for rest in _lists2(n - k, depth, True):
+                out.append((s,) + rest)
+    return tuple(out)
+
+
+@functools.lru_cache(maxsize=None)
+def _stmts2(n, depth):
+    A0, B0 = ATOMS2[0]['m'], ATOMS2[1]['m']
+    if n == 1:
+        out = list(ATOMS2) + list(ACTIONS2)
+        if depth >= 1:
+            out.append(_BREAK)
+        if depth >= 2:
+            out.append({'t': 'break', 'loop': 'L0'})
+        out.append({'t': 'case', 'greedy': False, 'cl': [{'ps': [A0, B0], 'prio': 0, 'b': []}, {'ps': ['else'], 'prio': 0, 'b': []}]})
+        out.append({'t': 'case', 'greedy': False, 'cl': [{'ps': [{'k': 'end'}], 'prio': 0, 'b': []}, {'ps': [A0], 'prio': 0, 'b': []}]})
+        return tuple(out)
+    out = []
+    m = n - 1
+    for b in _lists2(m, min(depth + 1, 2), False):
+        out.append({'t': 'loop', 'name': 'L%d' % min(depth, 1), 'b': list(b)})
+    for b in _lists2(m, depth, False):
+        out.append({'t': 'opt', 'b': list(b)})
+    for k1, k2 in _splits(m, 2):
+        if k1 == 0:
+            continue
+        for b in _lists2(k1, depth, False):
+            for h in _lists2(k2, depth, True):
+                out.append({'t': 'try', 'b': list(b), 'handles': ['outofspace'], 'h': list(h)})
+                out.append({'t': 'try', 'b': list(b), 'handles': ['nomatch'], 'h': list(h)})
+    for k1, k2 in _splits(m, 2):
+        for b1 in _lists2(k1, depth, True):
+            for b2 in _lists2(k2, depth, True):
+                out.append({'t': 'case', 'greedy': False, 'cl': [{'ps': [A0, B0], 'prio': 0, 'b': list(b1)}, {'ps': ['else'], 'prio': 0, 'b': list(b2)}]})
+                out.append({'t': 'case', 'greedy': False, 'cl': [{'ps': [{'k': 'end'}], 'prio': 0, 'b': list(b1)}, {'ps': [A0], 'prio': 0, 'b': list(b2)}]})
+                if b1 and b2:
+                    out.append({'t': 'if', 'br': [{'c': _COND, 'b': list(b1)}, {'c': _COND0, 'b': list(b2)}], 'els': None})
+    return tuple(out)
+
+
+def count2(maxsize):
+    return sum(len(_lists2(k, 0, False)) for k in range(1, maxsize + 1))
+
+
+DECLS2 = dict(
+    outs=[{'name': 's0', 'type': 'str', 'size': 2, 'term': True, 'default': None},
+          {'name': 'n0', 'type': 'int', 'signed': None, 'width': None, 'default': None}],
+    hooks=['h0'], fcodes=['F0'], ycodes=[])
+
+
+def _consuming(ss):
+    return any(not _actionish(s) or (s['t'] == 'if' and (any(_consuming(br['b']) for br in s['br']) or _consuming(s.get('els') or []))) for s in ss)
+
+
+def input_after_end(ss, more=False):
+    """does an `end` pattern have a statement that needs input behind it (in its list, in the clause it selects, behind an enclosing
+    block, or through a loop's back edge)?  Such programs ask for data after the end of the input; what their pending actions do then is
+    outside the EOF contract (C17 speaks of the actions that follow the pattern when it completes the program)."""
+    for i, s in enumerate(ss):
+        rest = more or _consuming(ss[i + 1:])
+        t = s['t']
+        if t == 'match' and s['m'].get('k') == 'end' and rest:
+            return True
+        if t == 'case':
+            for cl in s['cl']:
+                if any(isinstance(p, dict) and p.get('k') == 'end' for p in cl['ps']) and (rest or _consuming(cl['b'])):
+                    return True
+                if input_after_end(cl['b'], rest):
+                    return True
+        elif t == 'loop':
+            if input_after_end(s['b'], True):
+                return True
+        elif t in ('opt', 'try', 'foreach'):
+            if input_after_end(s['b'], rest) or (t == 'try' and input_after_end(s['h'], rest)):
+                return True
+        elif t == 'if':
+            if any(input_after_end(br['b'], rest) for br in s['br']) or (s.get('els') and input_after_end(s['els'], rest)):
+                return True
+    return False
+
+
+def _uses_end(ss):
+    import json
+    return '"k": "end"' in json.dumps(ss)
+
+
+def programs2(maxsize, stride=1, offset=0, minsize=1):
+    """the second dialect, same interface as programs()"""
+    idx = -1
+    for k in range(minsize, maxsize + 1):
+        for body in _lists2(k, 0, False):
+            idx += 1
+            if idx % stride != offset % stride:
+                continue
+            b = copy.deepcopy(list(body))
+            b = genprog.avoid_op8(b)
+            if not _uses_end(b):
+                b.append(_lit(T))          # (a program with an `end` pattern gets no sentinel: nothing can follow the end of the input)
+            ast = dict(copy.deepcopy(DECLS2), macros=[], body=b, args=[])
+            args = [LEVELS[(idx // 3) % 4], '-feof-support']
+            ast['known_class'] = 'finish-after-skipped-construct' if lazy_finish_shape(b) else None
+            ast['op8'] = op8_shape(b) or input_after_end(b)
+            yield idx, 'enumB%d:%d' % (maxsize, idx), ast, genprog.spell_program(ast), args
 
 
 if __name__ == '__main__':
     import sys
     n = int(sys.argv[1]) if len(sys.argv) > 1 else 3
     for k in range(1, n + 1):
-        print('size', k, 'lists', len(_lists(k, False, False)))
+        print('size', k, 'lists', len(_lists(k, False, False)), 'second dialect', len(_lists2(k, 0, False)))
     if len(sys.argv) > 2:
         for i, (idx, name, ast, src, args) in enumerate(programs(n, stride=int(sys.argv[2]))):
             if i < 5:
